@@ -76,6 +76,7 @@ func runC05(p *core.Prog, r *core.Report) {
 	r.Rule("C05-R3", "dirty stores are dropped: Put is not deferred (a Store abandoned by a panicking handler never re-enters the pool) and every path to Put passes all resets", 1)
 	r.Rule("C05-R4", "capacity independence: captured parameter values are stored with append (or a truncation to a constant length), never by reslicing up to a computed length or by element stores that rely on the capacity fixed at creation", 2)
 	r.Rule("C05-R5", "request IDs: the counter is only touched through sync/atomic; each pooled Store owns a freshly made ID buffer; the ID buffer is written only by ServeHTTP and the constructor", 3)
+	r.Rule("C05-R7", "requests do not write the Mux: code reachable from ServeHTTP stores nothing into memory reachable from its receiver (same analysis as C03-R1; pools and atomics exempt)", 1)
 	r.Rule("C05-R6", "shared route data is read-only for requests: a slice of the Store that aliases a field of the routing tree (the parameter names) is never cleared, copied into or element-assigned", 0)
 	r.NotDecided = append(r.NotDecided, "cross-Mux uniqueness of the random prefix", "registration concurrent with serving (ServeHTTP reads the tree without mux.mu): the property speaks of registration between requests")
 	r.Trusted = append(r.Trusted, "sync.Pool: an object is owned exclusively between Get and Put", "go/ssa")
@@ -578,6 +579,22 @@ func runC05(p *core.Prog, r *core.Report) {
 			}
 			r.Check(len(bad) == 0, "C05-R5", fmt.Sprintf("the %d bytes the reset keeps are never overwritten after construction", keep), "-", "every write to the ID buffer starts at or after the kept prefix", fmt.Sprintf("the reset truncates the ID buffer to its first %d bytes and relies on them being the constructor's prefix, but %s: the next request served by this pooled Store gets an ID that starts with bytes of this request", keep, strings.Join(uniq(bad), "; ")))
 		}
+	}
+
+	// ---- R7: serving a request leaves the Mux as it found it — the route a request selects depends on the registered
+	// routes only, not on what earlier requests left behind (a cache, a counter other than the ID sequence). The
+	// receiver-immutability analysis of C03 run from ServeHTTP: pools and atomics are exempt, sync.Map is state.
+	{
+		var bad []string
+		if len(serveSrc.Params) > 0 {
+			for _, f := range newMutAnalysis(p).analyse(serveSrc, map[ssa.Value]string{serveSrc.Params[0]: tPtr}) {
+				if strings.Contains(f.msg, "passed to sync/atomic.") {
+					continue // the ID sequence (C05-R5 requires exactly this)
+				}
+				bad = append(bad, f.msg+" at "+f.pos)
+			}
+		}
+		r.Check(len(bad) == 0, "C05-R7", "ServeHTTP writes no memory owned by the Mux", p.FuncPos(serveSrc), "no store, in-place append or mutating call reaches memory reachable from the Mux (the ID counter is atomic, Stores come from the pool)", "state that survives the request and is shared by all requests: "+strings.Join(uniq(bad), "; ")+" — a later request (or a route registered in between) is served according to what an earlier request left there")
 	}
 
 	// ---- R6: the parameter names a Store carries are an alias of the matched route's own list (Params.K = node.names): a
